@@ -221,6 +221,80 @@ ChooseNext(S, n) ==
             IN {<<i, chooseStep(Step(S, [St("disc") EXCEPT !.n = n, !.i = i, !.w = w]), i)>> : i \in cands}
 
 ----------------------------------------------------------------------------
+(* State trackers (ciw/trackers/state_tracker.py): the incremental update rules, transcribed.   *)
+(* S.trk = [a, b, m, inc, hl, ht]: a vector, b matrix, m blockage-order matrix, inc next order   *)
+(* number, hl/ht length and last timestamp of the history.  Only the fields of the configured    *)
+(* tracker kind are used; S.gb is the global order of current blockages <<from, id, to>>.        *)
+
+TrkKind(S) == S.cfg.tracker
+AddAt(v, j, d) == [v EXCEPT ![j] = @ + d]
+IndexIn(seq, x) == IF InSeq(seq, x) THEN FirstIdx(seq, x) ELSE 0
+GroupOf(groups, x) == LET g == {a \in DOMAIN groups : InSeq(groups[a], x)} IN IF g = {} THEN 0 ELSE SetMin(g)
+
+TrkInit(cfg) ==
+    LET N == cfg.N
+        K == cfg.K
+        zeros(m) == Seqify([j \in 1..m |-> 0])
+        t == cfg.tracker
+    IN [a |-> IF t = "system" THEN <<0>>
+              ELSE IF t \in {"node", "matrix"} THEN zeros(N)
+              ELSE IF t = "subset" THEN zeros(Len(cfg.observed))
+              ELSE IF t = "grouped" THEN zeros(Len(cfg.groups)) ELSE <<>>,
+        b |-> IF t = "nodeclass" THEN Seqify([n \in 1..N |-> zeros(K)])
+              ELSE IF t = "naive" THEN Seqify([n \in 1..N |-> <<0, 0>>]) ELSE <<>>,
+        m |-> IF t = "matrix" THEN Seqify([n \in 1..N |-> Seqify([d \in 1..N |-> <<>>])]) ELSE <<>>,
+        inc |-> 1, hl |-> 1, ht |-> 0]
+
+\* population part shared by accept (+1) and release (-1)
+TrkPop(S, n, d) ==
+    LET t == TrkKind(S)
+        tr == S.trk
+    IN IF t = "system" THEN [S EXCEPT !.trk.a = AddAt(tr.a, 1, d)]
+       ELSE IF t \in {"node", "matrix"} THEN [S EXCEPT !.trk.a = AddAt(tr.a, n, d)]
+       ELSE IF t = "subset" THEN
+            LET j == IndexIn(S.cfg.observed, n - 1) IN IF j = 0 THEN S ELSE [S EXCEPT !.trk.a = AddAt(tr.a, j, d)]
+       ELSE IF t = "grouped" THEN
+            LET j == GroupOf(S.cfg.groups, n - 1) IN IF j = 0 THEN S ELSE [S EXCEPT !.trk.a = AddAt(tr.a, j, d)]
+       ELSE S
+
+TrkAccept(S, n, i) ==
+    LET t == TrkKind(S)
+    IN IF t = "none" THEN S
+       ELSE IF t = "nodeclass" THEN [S EXCEPT !.trk.b[n] = AddAt(@, Cu(S, i).cls, 1)]
+       ELSE IF t = "naive" THEN [S EXCEPT !.trk.b[n] = AddAt(@, 1, 1)]
+       ELSE TrkPop(S, n, 1)
+
+TrkBlock(S, n, d, i) ==
+    LET t == TrkKind(S)
+    IN IF t = "naive" THEN [S EXCEPT !.trk.b[n] = AddAt(AddAt(@, 2, 1), 1, -1)]
+       ELSE IF t = "matrix" THEN [S EXCEPT !.trk.m[n][d] = Append(@, S.trk.inc), !.trk.inc = @ + 1]
+       ELSE S
+
+\* change_state_release / change_state_renege; cls = the class the tracker decrements
+TrkRelease(S, n, d, i, blocked) ==
+    LET t == TrkKind(S)
+        c == Cu(S, i)
+        cls == IF Dev(S, "F6") THEN c.cls ELSE c.pcls
+    IN IF t = "none" THEN S
+       ELSE IF t = "nodeclass" THEN [S EXCEPT !.trk.b[n] = AddAt(@, cls, -1)]
+       ELSE IF t = "naive" THEN [S EXCEPT !.trk.b[n] = AddAt(@, IF blocked THEN 2 ELSE 1, -1)]
+       ELSE IF t = "matrix" /\ blocked THEN
+            LET S1 == TrkPop(S, n, -1)
+                cell == S1.trk.m[n][d]
+                pos == cell[1]
+                dec(q) == Seqify([j \in DOMAIN q |-> IF q[j] > pos THEN q[j] - 1 ELSE q[j]])
+                m1 == [S1.trk.m EXCEPT ![n][d] = Tail(cell)]
+            IN [S1 EXCEPT !.trk.inc = @ - 1,
+                          !.trk.m = Seqify([a \in DOMAIN m1 |-> Seqify([b \in DOMAIN m1[a] |-> dec(m1[a][b])])])]
+       ELSE TrkPop(S, n, -1)
+
+TrkClassChange(S, n, i, old, new) ==
+    IF TrkKind(S) = "nodeclass" THEN [S EXCEPT !.trk.b[n] = AddAt(AddAt(@, old, -1), new, 1)] ELSE S
+
+\* the hashed state, for history comparison
+TrkState(S) == <<S.trk.a, S.trk.b, S.trk.m>>
+
+----------------------------------------------------------------------------
 (* Routing.  Route(S, n, i, f): f = 0 next_node, 1 next_node_for_rerouting,   *)
 (* 2 next_node_for_jockeying.  Result: set of <<destination, state>>.         *)
 
@@ -354,10 +428,11 @@ NodeAccept(S, n, i) ==
     LET c == Cu(S, i)
         nd == Nd(S, n)
         S1 == Step(S, [St("accept") EXCEPT !.n = n, !.i = i, !.x = nd.count])
-        c2 == [c EXCEPT !.loc = n, !.blk = FALSE, !.ocls = c.cls, !.qa = nd.count]
+        c2 == [c EXCEPT !.loc = n, !.blk = FALSE, !.ocls = c.cls, !.pcls = c.cls, !.pprio = c.prio, !.qa = nd.count]
         S2 == SetCu(S1, i, c2)
         S3 == [S2 EXCEPT !.nodes[n].q[c.prio + 1] = Append(@, i), !.nodes[n].count = @ + 1]
-    IN IF IsPS(S, n) THEN Crash(S, "unmodelled:ps") ELSE BeginServiceAccept(S3, n, i)
+    IN IF IsPS(S, n) THEN Crash(S, "unmodelled:ps")
+       ELSE Bind(BeginServiceAccept(S3, n, i), LAMBDA T : {TrkAccept(T, n, i)})
 
 \* accept at node d or at the exit
 Accept(S, d, i, completed) ==
@@ -402,10 +477,11 @@ Preempt(S, n, v, j) ==
             LET T1 == Attach(T, n, sid, j)
                 T2 == SetCu(T1, j, [Cu(T1, j) EXCEPT !.ss = T1.now])
                 T3 == Step(T2, [St("start") EXCEPT !.n = n, !.i = j, !.s = sid, !.x = T2.now])
-            IN DrawSvc(T3, n, j, LAMBDA U, val :
-                 LET U1 == SetCu(U, j, [Cu(U, j) EXCEPT !.st = val, !.stm = 0, !.se = U.now + val])
+            IN GiveServiceTime(T3, n, j, LAMBDA U :
+                 LET cj == Cu(U, j)
+                     U1 == SetCu(U, j, [cj EXCEPT !.se = U.now + cj.st])
                      U2 == ResetClassChange(U1, n, j)
-                 IN {SetSrv(U2, n, sid, [Srv(U2, n, sid) EXCEPT !.nend = U.now + val])})
+                 IN {SetSrv(U2, n, sid, [Srv(U2, n, sid) EXCEPT !.nend = U.now + cj.st])})
     IN Bind(afterVictim, takeOver)
 
 Reroute(S, n, i) ==
@@ -483,7 +559,11 @@ Release(S, n, i, d, reroute) ==
                  ELSE IF IsSlotted(S, n) THEN SetCu(S2, i, [Cu(S2, i) EXCEPT !.srv = 0])
                  ELSE S2
            wasBlocked == c.blk
-           S4 == SetCu(S3, i, ResetAttrs(Cu(S3, i)))
+           S4a == SetCu(S3, i, ResetAttrs(Cu(S3, i)))
+           S4b == IF wasBlocked /\ d # EXIT
+                  THEN [S4a EXCEPT !.gb = RemoveAt(@, SetMin({a \in DOMAIN S4a.gb : S4a.gb[a][1] = n /\ S4a.gb[a][2] = i} \cup {Len(S4a.gb) + 1}))]
+                  ELSE S4a
+           S4 == TrkRelease(S4b, n, d, i, wasBlocked)
            freed == IF finite /\ ~IsDeadRef(c.srv) THEN c.srv ELSE 0
            afterRestart == IF reroute THEN {S4}
                            ELSE IF IsPS(S, n) THEN Crash(S4, "unmodelled:ps")
@@ -509,8 +589,9 @@ ReleaseBlocked(S, m) ==
 
 Block(S, n, i, d) ==
     LET S0 == Step(S, [St("block") EXCEPT !.n = n, !.i = i, !.d = d, !.x = Nd(S, d).count, !.y = Nd(S, d).cap])
-        S1 == SetCu(S0, i, [Cu(S0, i) EXCEPT !.blk = TRUE])
-    IN [S1 EXCEPT !.nodes[d].bq = Append(@, <<n, i>>), !.nodes[d].lbq = @ + 1, !.unchecked = TRUE]
+        S1 == TrkBlock(SetCu(S0, i, [Cu(S0, i) EXCEPT !.blk = TRUE]), n, d, i)
+    IN [S1 EXCEPT !.nodes[d].bq = Append(@, <<n, i>>), !.nodes[d].lbq = @ + 1, !.unchecked = TRUE,
+                  !.gb = Append(@, <<n, i, d>>)]
 
 ----------------------------------------------------------------------------
 (* Events at a service node *)
@@ -567,7 +648,7 @@ RenegeEvent(S, n) ==
                                rec == [Rec(c, n, "renege", U.now, c.dest, nd.count - 1, NONE)
                                          EXCEPT !.wait = U.now - c.arr]
                                U2 == WriteRec(U1, i, rec)
-                               U3 == SetCu(U2, i, ResetAttrs(Cu(U2, i)))
+                               U3 == TrkRelease(SetCu(U2, i, ResetAttrs(Cu(U2, i))), n, d, i, FALSE)
                            IN Bind(Accept(U3, d, i, FALSE), LAMBDA V : ReleaseBlocked(V, n))
                    : pr \in Route(T1, n, i, 2)})
 
@@ -736,7 +817,8 @@ ClassChangeEvent(S, n) ==
                     ELSE {S1}
        IN Bind(moved, LAMBDA T :
              LET ci == Cu(T, i)
-             IN DecideClassChange(SetCu(T, i, [ci EXCEPT !.pcls = ci.cls, !.pprio = ci.prio]), n, i))
+                 T1 == TrkClassChange(T, n, i, ci.pcls, ci.cls)
+             IN DecideClassChange(SetCu(T1, i, [ci EXCEPT !.pcls = ci.cls, !.pprio = ci.prio]), n, i))
 
 ----------------------------------------------------------------------------
 (* External arrivals *)
@@ -897,7 +979,10 @@ ExecEvent(S, a) ==
                 ELSE IF lab.kind = "slotted_service" THEN SlottedService(S0, a)
                 ELSE IF lab.kind = "class_change" THEN ClassChangeEvent(S0, a)
                 ELSE Crash(S0, "unmodelled:" \o lab.kind)
-    IN {IF Ok(T) THEN UpdateAll(T, 1) ELSE T : T \in body}
+        \* StateTracker.timestamp() after each event of simulate_until_max_time / max_customers
+        stamp(T) == IF T.cfg.stop = "deadlock" \/ T.cfg.tracker = "none" \/ T.trkprev = TrkState(T) THEN T
+                    ELSE [T EXCEPT !.trk.hl = @ + 1, !.trk.ht = T.now, !.trkprev = TrkState(T)]
+    IN {IF Ok(T) THEN stamp(UpdateAll(T, 1)) ELSE T : T \in body}
 
 \* all successors by one event (model-checking mode: any tie-break)
 Event(S) == UNION {ExecEvent(S, a) : a \in ArgMin(S)}
@@ -939,7 +1024,8 @@ InitStates(cfg, mode, script) ==
                nodes |-> [n \in 1..cfg.N |-> InitNode(cfg, n)],
                cu |-> <<>>, exit |-> <<>>,
                steps |-> <<>>, recs |-> <<>>, ev |-> [kind |-> "init", node |-> 0, cls |-> 0, date |-> 0],
-               unchecked |-> FALSE,
+               unchecked |-> FALSE, trk |-> TrkInit(cfg), gb |-> <<>>,
+               trkprev |-> <<TrkInit(cfg).a, TrkInit(cfg).b, TrkInit(cfg).m>>,
                rt |-> [k \in 1..cfg.K |-> [n \in 1..cfg.N |-> 0]],
                cfg |-> cfg, mode |-> mode, script |-> script, err |-> ""]
     IN InitArr(S0, 1, 1)
